@@ -11,3 +11,47 @@ Theorem decode_encode_filtered b :
 Proof.
   intros Hv c st. apply filter_is_subsequence. apply decode_encode_block; assumption.
 Qed.
+
+(* ---------- the domain of the theorems vs the format ---------- *)
+(* valid_block = valid with respect to the format, and no plain (non-dense) Node item *)
+Lemma forallb_and {A} (f g : A -> bool) l : forallb (fun x => f x && g x) l = forallb f l && forallb g l.
+Proof.
+  induction l as [|a l IH]; simpl; [reflexivity|]. rewrite IH.
+  destruct (f a), (g a), (forallb f l), (forallb g l); reflexivity.
+Qed.
+
+Lemma forallb_ext' {A} (f g : A -> bool) l : (forall x, f x = g x) -> forallb f l = forallb g l.
+Proof. intros H. induction l as [|a l IH]; simpl; [reflexivity|]. rewrite H, IH. reflexivity. Qed.
+
+Lemma item_ok_split b it : item_ok b it = format_item_ok b it && negb (is_plain it).
+Proof. destruct it; simpl; try (rewrite andb_true_r; reflexivity). rewrite andb_false_r. reflexivity. Qed.
+
+Theorem valid_block_is_format_valid_without_plain_nodes b :
+  valid_block b = (format_valid_block b && no_plain_nodes b).
+Proof.
+  unfold valid_block, format_valid_block, no_plain_nodes, params_ok.
+  assert (E : forallb (forallb (item_ok b)) (b_groups b)
+              = forallb (forallb (format_item_ok b)) (b_groups b)
+                && forallb (forallb (fun it => negb (is_plain it))) (b_groups b)).
+  { rewrite <- forallb_and. apply forallb_ext'. intros g. rewrite <- forallb_and. apply forallb_ext'.
+    intros it. apply item_ok_split. }
+  rewrite E. rewrite andb_assoc. reflexivity.
+Qed.
+
+(* REFUTED: "scanning any valid block yields exactly the elements it encodes" is false of the
+   faithful model (and of the implementation: replayed, see known_findings.d/C01.json class
+   plain-node-group): a block that is valid with respect to the format and encodes one node as a
+   plain Node message is answered with the error "plain (non-dense) nodes are not supported" under
+   every configuration and from every decoder state. *)
+Definition plain_witness : block_d :=
+  mkBlockD [[]; [107]; [118]] false None None None None
+    [[INode (mkPN 7 10 20 true (mkFl true false false false false false) (mkInfoD 2 0 0 0 0 true) [(1, 2)])]].
+
+Theorem plain_nodes_refuted :
+  format_valid_block plain_witness = true
+  /\ elements plain_witness = [ONode (mkNode 7 1000 2000 (mkInfo 2 None 0 0 [] true) [([107], [118])])]
+  /\ forall c st, scan_result c st (encode_block plain_witness) = Err E_PLAIN.
+Proof.
+  split; [vm_compute; reflexivity|]. split; [vm_compute; reflexivity|].
+  intros c st. rewrite (scan_result_state_independent c st dstate0). reflexivity.
+Qed.
